@@ -70,6 +70,7 @@ func NewShared(prog *ssa.Program) *Shared {
 	registerStdlib(sh.intr)
 	registerGob(sh.intr)
 	registerFiles(sh.intr)
+	registerAlias(sh.intr)
 	if p := prog.ImportedPackage("errors"); p != nil {
 		sh.errorsNew = p.Func("New")
 	}
